@@ -28,7 +28,8 @@ func TestDrive(t *testing.T) {
 	// one P: what happens between two gates is then scheduled the same way on
 	// every run, so that a recorded schedule replays exactly
 	runtime.GOMAXPROCS(vh.EnvInt("VH_PROCS", 1))
-	rot := &vh.Rot{Dir: out, Max: vh.EnvInt("VH_ROT", 120000)}
+	// VH_SYNC: every event is flushed at once (replay of a scenario in which the library made the process panic)
+	rot := &vh.Rot{Dir: out, Max: vh.EnvInt("VH_ROT", 120000), Sync: os.Getenv("VH_SYNC") != ""}
 	sf, err := os.Create(out + "/scenarios.ndjson")
 	if err != nil {
 		t.Fatal(err)
@@ -37,7 +38,7 @@ func TestDrive(t *testing.T) {
 	sw := bufio.NewWriter(sf)
 	defer sw.Flush()
 	enc := json.NewEncoder(sw)
-	d := &driver{t: t, rot: rot, enc: enc, rng: rand.New(rand.NewSource(seed)), seed: seed}
+	d := &driver{t: t, rot: rot, enc: enc, rng: rand.New(rand.NewSource(seed)), seed: seed, out: out}
 
 	if rp := os.Getenv("VH_REPLAY"); rp != "" {
 		f, err := os.Open(rp)
@@ -111,6 +112,7 @@ type driver struct {
 	errs    int
 	perPlan map[string]int
 	plan    string
+	out     string
 }
 
 func (d *driver) run(sc *Scenario) Result {
@@ -118,6 +120,10 @@ func (d *driver) run(sc *Scenario) Result {
 	sc.ID = d.next
 	if sc.Salt == "" {
 		sc.Salt = fmt.Sprint(sc.ID)
+	}
+	// the scenario about to run: if a goroutine of the library panics, the process dies and this is what is left
+	if b, err := json.Marshal(sc); err == nil {
+		os.WriteFile(d.out+"/current.json", b, 0o644)
 	}
 	r := RunOne(d.t, sc, d.rot.Next())
 	d.execs++
@@ -292,6 +298,10 @@ func (d *driver) planCrafted(cap, k int) {
 			for c := 1; c <= 3; c++ {
 				d.dfs(Scenario{Nodes: cs.Nodes, API: "extcopygraph", Root: start, Dst0: []int{}, C: c}, cap/2+1)
 			}
+			for po := 1; po <= 12; po++ {
+				sc := Scenario{Nodes: cs.Nodes, API: "extcopygraph", Root: start, Dst0: []int{}, C: 1 + po%3, PredOrder: po, Seed: d.rng.Int63()}
+				d.run(&sc)
+			}
 		}
 	}
 }
@@ -353,7 +363,13 @@ func (d *driver) planExtF(count int) {
 		sc.DstKind = []string{"memory", "oci"}[d.rng.Intn(2)]
 		if sc.SrcKind == "remote" {
 			sc.RefPage = d.rng.Intn(3)
+			// the client's own page size: the registry is free to answer with shorter pages
+			sc.RefN = []int{0, 0, 1, 3, 4}[d.rng.Intn(5)]
+			if crafted {
+				sc.RefPage, sc.RefN = 1+d.rng.Intn(2), []int{0, 3, 4}[d.rng.Intn(3)]
+			}
 		}
+		sc.PredOrder = d.rng.Intn(16)
 		sc.Filter = filters[d.rng.Intn(len(filters))]
 		sc.Depth = []int{0, 0, 1, 2}[d.rng.Intn(4)]
 		if vh.IsManifestKind(nodes[sc.Root].Kind) && d.rng.Intn(2) == 0 {
@@ -440,6 +456,24 @@ func (d *driver) planRandom(count int, ext bool) {
 				}
 			}
 			sc.Depth = d.rng.Intn(4)
+			sc.PredOrder = d.rng.Intn(16)
+			if d.rng.Intn(8) == 0 {
+				// a crafted sharing pattern, from one of its interesting start nodes
+				var cands []crafted
+				for _, cs := range craftedShapes() {
+					if len(cs.Ext) > 0 {
+						cands = append(cands, cs)
+					}
+				}
+				cs := cands[d.rng.Intn(len(cands))]
+				nodes, n = cs.Nodes, len(cs.Nodes)-1
+				g, _ = vh.Build(nodes, "x")
+				subsets = g.ClosedSubsets()
+				sc.Nodes, sc.Root, sc.Dst0 = nodes, cs.Ext[d.rng.Intn(len(cs.Ext))], subsets[d.rng.Intn(len(subsets))]
+				if d.rng.Intn(2) == 0 {
+					sc.Depth = 0
+				}
+			}
 		default:
 			sc.API = []string{"copygraph", "copy", "copy"}[d.rng.Intn(3)]
 		}
